@@ -6,7 +6,11 @@
 (* its file exists it replaces all of that by reading the file.  A run     *)
 (* therefore resumes from the LAST checkpoint whose file exists, executes  *)
 (* only the segments after it and rewrites the checkpoints after it.       *)
-(* History actions: Run, DeleteDir(j).                                     *)
+(* History actions: Run, DeleteDir(j), FailRun(s): a run in which segment  *)
+(* s raises while rows are flowing - every checkpoint publishes its file   *)
+(* only after the LAST row of the last resource has passed it, so a failed *)
+(* run publishes nothing and the next run resumes exactly where this one   *)
+(* would have (C08 at the level of histories).                             *)
 (***************************************************************************)
 EXTENDS Naturals, Sequences, FiniteSets, TLC, Json
 
@@ -31,7 +35,11 @@ DeleteDir(j) == /\ Len(hist) < MaxLen /\ exists[j]
                 /\ exists' = [exists EXCEPT ![j] = FALSE]
                 /\ hist' = Append(hist, <<"del", j>>)
                 /\ UNCHANGED <<execd, from>>
-Next == Run \/ \E j \in 1..K : DeleteDir(j)
+FailRun(s) == /\ Len(hist) < MaxLen
+              /\ s >= Last(exists)                              \* a segment that runs at all
+              /\ hist' = Append(hist, <<"fail", s>>)
+              /\ UNCHANGED <<exists, execd, from>>              \* nothing is published; it is not a completed run
+Next == Run \/ (\E j \in 1..K : DeleteDir(j)) \/ (\E s \in 0..K : FailRun(s))
 Spec == Init /\ [][Next]_vars
 
 \* C07
